@@ -31,6 +31,10 @@ fn main() {
             if !args.iter().any(|a| a == "--no-evidence") {
                 vh::registry::write_evidence(&ctx, &out, wall);
             }
+            if args.iter().any(|a| a == "--emit-json") {
+                let vs: Vec<(String, String)> = out.violations.clone();
+                println!("SUBRESULT {}", serde_json::json!({"coverage": out.coverage, "violations": vs}));
+            }
             for l in &out.known_lines {
                 println!("{}", l);
             }
